@@ -102,6 +102,18 @@ fn check_affixes(params: &DecParams, w: usize, cx: &mut Cx) {
 }
 
 /// The trivial decorator produces nothing but document text, whitespace and table borders.
+fn check_routes(params: &DecParams, h: &str, w: usize, cx: &mut Cx) {
+    let cfg = Cfg::new(Dec::Custom(params.clone()));
+    let a = cx.render(h.as_bytes(), w, &cfg);
+    for (name, r) in other_routes_raw(h.as_bytes(), w, &cfg) {
+        cx.state(1);
+        if r != a {
+            let class = format!("route {name} disagrees with string_from_read under a custom decorator");
+            cx.violation(&class, || json!({"case": {"params": params, "html": h, "width": w}, "one_shot": format!("{a:?}"), "route": format!("{r:?}")}));
+        }
+    }
+}
+
 fn check_trivial(html: &str, w: usize, cx: &mut Cx) {
     let cfg = Cfg::trivial();
     let r = cx.render(html.as_bytes(), w, &cfg);
@@ -169,14 +181,7 @@ impl Scope for S {
         // rendering (size estimates must be taken with the rendering decorator)
         for h in self.docs.iter().step_by(3) {
             for &w in self.widths.iter().step_by(2) {
-                let a = cx.render(h.as_bytes(), w, &cfg);
-                for (name, r) in other_routes_raw(h.as_bytes(), w, &cfg) {
-                    cx.state(1);
-                    if r != a {
-                        let class = format!("route {name} disagrees with string_from_read under a custom decorator");
-                        cx.violation(&class, || json!({"case": {"params": params, "html": h, "width": w}, "one_shot": format!("{a:?}"), "route": format!("{r:?}")}));
-                    }
-                }
+                check_routes(params, h, w, cx);
             }
         }
         // compositionality with display-width prefixes (C07's relation under this decorator)
@@ -252,6 +257,7 @@ impl Prop for P {
             let c: Case = serde_json::from_value(case.clone()).expect("C16 case");
             check_basic(&c, cx);
             check_affixes(&c.params, c.width, cx);
+            check_routes(&c.params, &c.html, c.width, cx);
         } else {
             let (html, w, _) = case_from_json(case);
             check_trivial(&String::from_utf8_lossy(&html), w, cx);
